@@ -1,5 +1,7 @@
 import OV.Model.C19Fusions
 import OV.Model.C19Index
+import OV.Model.C19Core
+import OV.Gen.C19Core
 import OV.Lemmas.C19Shape
 import OV.Lemmas.C19Perm
 import Mathlib.Tactic.Ring
@@ -8,6 +10,10 @@ import Mathlib.Data.Matrix.Mul
 import Mathlib.LinearAlgebra.Matrix.Notation
 import Mathlib.Tactic.SplitIfs
 import Mathlib.Algebra.BigOperators.Field
+import Mathlib.Tactic.Linarith
+import Mathlib.Algebra.Order.Field.Basic
+import Mathlib.Algebra.Order.Field.Rat
+import Mathlib.Algebra.Order.AbsoluteValue.Basic
 /-!
 # C19 — ONNX Runtime fusions preserve numerical results
 
@@ -1170,4 +1176,239 @@ theorem rms_output_dtype_preserved (i : RmsIn) (h6 : i.fix6 = true) (h : rmsChec
   cases hm : i.mulOrder <;> cases hs : i.scaleCast <;> cases hc : i.castIn <;> simp <;>
     (try (intro hg; split at hg <;> simp_all)) <;> (try split <;> simp_all)
 
+/-! ## `_core.py`: stage order, read from the source (translator) -/
+
+/-- **Translator tie.**  The statement sequences of `fuse_xformers`, `_pre_optimize`, `optimize_for_ort`, the order of
+`ORT_PATTERN_REWRITE_RULES`, the tolerances of SDPA's default-scale test and the priority of the two softmax rules —
+re-read from the tree under test by `harness/c19_extract.py` on every run (`OV.Gen.C19Core`) — are the ones the model
+assumes (`OV.Model.C19Core`).  Any edit of those sequences makes this theorem fail to check. -/
+theorem core_tables_match_model :
+    OV.Gen.C19Core.fuseXformersSteps = xformersOrder
+    ∧ OV.Gen.C19Core.preOptimizeSteps = preOptimizeOrder
+    ∧ OV.Gen.C19Core.optimizeForOrtSteps = optimizeForOrtOrder
+    ∧ OV.Gen.C19Core.ortPatternRules = ortRuleOrder
+    ∧ OV.Gen.C19Core.sdpaDefaultScaleTest = sdpaIscloseKw
+    ∧ OV.Gen.C19Core.softmaxRuleOrder = softmaxOrder := by decide +kernel
+
+/-- the fusion stages of `fuse_xformers` that can run (top level or `else` branch), in program order -/
+theorem core_stage_keys :
+    stageKeys OV.Gen.C19Core.fuseXformersSteps =
+      ["erf_gelu", "rms_normalization", "skip_layer_normalization", "skip_rms_normalization", "rotary_embedding",
+       "cos_sin_cache", "partial_rotary_embedding", "sdpa", "gqa", "packed_qkv_for_gqa", "mha1", "mha2", "mha_scale",
+       "mha_bias", "attention", "gelu", "bias_gelu", "sdpa_via_mha"] := by decide +kernel
+
+/-- The order facts the family models embody, established on the EXTRACTED table: `ropeStages` (rotary → cos/sin cache
+→ partial), `sdpa` before `gqa`/`mha1`/`mha2`, `mha_scale` after the MHA rules and before `mha_bias`, then `attention`;
+`sdpa_via_mha` is the last stage; no stage runs twice; exactly `mha_bias` and `attention` sit under the
+`mha1 == 0 and mha2 == 0` guard (set to 0 in the `if` branch — `pipe`'s `count=1/0/0/0/0` line). -/
+theorem core_stage_order_facts :
+    let ks := stageKeys OV.Gen.C19Core.fuseXformersSteps
+    precedes ks "rotary_embedding" "cos_sin_cache" = true
+    ∧ precedes ks "cos_sin_cache" "partial_rotary_embedding" = true
+    ∧ precedes ks "partial_rotary_embedding" "sdpa" = true
+    ∧ precedes ks "sdpa" "gqa" = true ∧ precedes ks "gqa" "packed_qkv_for_gqa" = true
+    ∧ precedes ks "sdpa" "mha1" = true ∧ precedes ks "mha1" "mha2" = true
+    ∧ precedes ks "mha2" "mha_scale" = true ∧ precedes ks "mha_scale" "mha_bias" = true
+    ∧ precedes ks "mha_bias" "attention" = true
+    ∧ precedes ks "rms_normalization" "skip_rms_normalization" = true
+    ∧ precedes ks "gelu" "bias_gelu" = true
+    ∧ ks.getLast? = some "sdpa_via_mha"
+    ∧ ks.Nodup
+    ∧ guardedKeys OV.Gen.C19Core.fuseXformersSteps =
+        [("if:" ++ mhaGuard, "mha_bias"), ("if:" ++ mhaGuard, "attention"),
+         ("else:" ++ mhaGuard, "mha_bias"), ("else:" ++ mhaGuard, "attention")] := by decide +kernel
+
+/-- **The modelled pipeline is the source's stage list.**  Interpreting the extracted stage keys one after the other on
+the query-op stack (`runQStage`: `mha_scale` peels a `Mul`, `mha_bias` an `Add`, all other stages leave the query path
+alone) is `pipeStages` — for every stack and both values of `otherBias`. -/
+theorem pipe_stages_follow_core_table (ops : List QOp) (otherBias : Bool) :
+    pipeStagesOf (stageKeys OV.Gen.C19Core.fuseXformersSteps) ops otherBias = pipeStages ops otherBias := by
+  rw [core_stage_keys]
+  simp [pipeStagesOf, runQStage, pipeStages]
+
+/-- non-vacuity of the previous statement: it distinguishes orders — `mha_bias` before `mha_scale`, or a second
+`mha_scale` after `mha_bias` (seeded change C19-6), give a different result on `q·s + b`. -/
+theorem pipe_stage_order_matters :
+    pipeStagesOf ["mha_bias", "mha_scale"] [.mul, .add] false ≠ pipeStagesOf ["mha_scale", "mha_bias"] [.mul, .add] false
+    ∧ pipeStagesOf ["mha_scale", "mha_bias", "mha_scale"] [.mul, .add] false
+        ≠ pipeStagesOf ["mha_scale", "mha_bias"] [.mul, .add] false := by decide
+
+section CoreCompose
+variable {K : Type} [Field K]
+
+/-- **End-to-end corollary (source order ∘ algebra).**  Running the attention stages in the order extracted from
+`fuse_xformers` on ANY stack of `Mul`/`Add` over the query preserves every attention score. -/
+theorem pipe_source_order_sound {n : Nat} (ops : List QOp) (otherBias : Bool) (q b k : Fin n → K) (s c : K) :
+    let r := pipeStagesOf (stageKeys OV.Gen.C19Core.fuseXformersSteps) ops otherBias
+    mhaScore (applyOps s b r.1 q) (if r.2.2 then b else fun _ => 0) k (if r.2.1 then c * s else c)
+      = mhaScore (applyOps s b ops q) (fun _ => 0) k c := by
+  simp only [pipe_stages_follow_core_table]
+  exact pipe_stage_order_sound ops otherBias q b k s c
+
+end CoreCompose
+
+/-! ## Second application of `fuse_xformers` on its own output (history stream `second`) -/
+
+/-- the stages that still run in a round where `mha1 == 0 and mha2 == 0` (every round after the first) -/
+theorem core_unguarded_keys :
+    unguardedKeys OV.Gen.C19Core.fuseXformersSteps =
+      ["erf_gelu", "rms_normalization", "skip_layer_normalization", "skip_rms_normalization", "rotary_embedding",
+       "cos_sin_cache", "partial_rotary_embedding", "sdpa", "gqa", "packed_qkv_for_gqa", "mha1", "mha2", "mha_scale",
+       "gelu", "bias_gelu", "sdpa_via_mha"] := by decide +kernel
+
+/-- **Second round, from the source.**  A further `fuse_xformers` on the block the first one left — the extracted stage
+list minus the stages the guard skips — acts on the query path as `pipeSecondRound`: ONLY `mha_scale` (it sits before
+the guard), for every state. -/
+theorem pipe_second_round_follows_core_table (otherBias : Bool) (st : List QOp × Bool × Bool) :
+    pipeRoundOf (unguardedKeys OV.Gen.C19Core.fuseXformersSteps) otherBias st = pipeSecondRound st := by
+  rw [core_unguarded_keys]
+  simp [pipeRoundOf, runQStage, pipeSecondRound]
+
+section Second
+variable {K : Type} [Field K]
+
+/-- **`second_application_sound` — _partial_.**  Full statement (refuted below, finding C19-F16): "for every stack
+`ops`, the block left by a second `fuse_xformers` computes the original attention scores".  Proved here under the
+hypothesis `hnb`: the FIRST round packed no query bias into MHA.  Then a second round (which may fold one more `Mul`
+into `scale`) is sound for every stack, every head size, all values.  The hypothesis is forced: with a packed query
+bias, `FuseMHAScale` — which never inspects MHA's `bias` input — scales the bias as well. -/
+theorem second_application_sound_partial {n : Nat} (ops : List QOp) (otherBias : Bool) (q b k : Fin n → K) (s c : K)
+    (hnb : (pipeStages ops otherBias).2.2 = false) :
+    mhaScore (applyOps s b (pipeSecondRound (pipeStages ops otherBias)).1 q) (fun _ => 0) k
+        ((if (pipeStages ops otherBias).2.1 then c * s else c) * (if (peelMul (pipeStages ops otherBias).1).2 then s else 1))
+      = mhaScore (applyOps s b ops q) (fun _ => 0) k c := by
+  have h1 := pipe_stage_order_sound ops otherBias q b k s c
+  rw [hnb] at h1
+  simp only [Bool.false_eq_true, if_false] at h1
+  rw [← h1]
+  simp only [pipeSecondRound, peelMul]
+  by_cases hm : (pipeStages ops otherBias).1.getLast? = some QOp.mul
+  · have hsplit : (pipeStages ops otherBias).1 = (pipeStages ops otherBias).1.dropLast ++ [QOp.mul] :=
+      (List.dropLast_append_getLast? _ (by simp [hm])).symm
+    simp only [hm, if_true]
+    conv_rhs => rw [hsplit, applyOps_append]
+    simp only [applyOps, mhaScore, add_zero, Finset.sum_mul]
+    exact Finset.sum_congr rfl (fun d _ => by ring)
+  · simp only [hm, if_false, Bool.false_eq_true, mul_one]
+
+end Second
+
+/-- non-vacuity of `second_application_sound_partial`: `((q + b)·s)·s` — no bias is packed in round 1 (the `Add` is
+under the `Mul`s), round 1 folds one `Mul`, round 2 the other -/
+example : (pipeStages [.add, .mul, .mul] false).2.2 = false
+    ∧ (peelMul (pipeStages [.add, .mul, .mul] false).1).2 = true := by decide
+
+/-- **Negation of the full statement (finding C19-F16).**  `q·s + b`: round 1 packs the bias and leaves the `Mul`
+(correct), round 2 folds that `Mul` into `scale` although the node now carries the bias: the score becomes
+`(q + b)·k·(c·s)` instead of `(q·s + b)·k·c` — different already for n = 1, q = b = k = c = 1, s = 1/2.
+Replayed on the real code: `fuse_mha_scale` on `MultiHeadAttention(Mul(q, 0.5), k, v, bias)`, and
+`optimize_for_ort` applied twice to a `pipe` block with `q_proj = scale_bias`. -/
+theorem second_application_scale_bias_refuted :
+    pipeStages [.mul, .add] false = ([.mul], false, true)
+    ∧ pipeSecondRound (pipeStages [.mul, .add] false) = ([], true, true)
+    ∧ mhaScore (applyOps (1/2 : ℚ) (fun _ : Fin 1 => 1) [] (fun _ => 1)) (fun _ => 1) (fun _ => 1) (1 * (1/2))
+        ≠ mhaScore (applyOps (1/2 : ℚ) (fun _ : Fin 1 => 1) [.mul, .add] (fun _ => 1)) (fun _ => 0) (fun _ => 1) 1 := by
+  refine ⟨by decide, by decide, ?_⟩
+  simp [mhaScore, applyOps]
+  norm_num
+
+/-! ## `math.isclose` decisions (pattern float literals; SDPA's default-scale test)
+
+`sdpa.py` drops the `scale` attribute when `math.isclose(scale, 1/sqrt(Dh), rel_tol=1e-5, abs_tol=1e-8)`; the matcher
+accepts a float pattern literal under the same test.  `iscloseG` is the definition the driver executes at `Float`; here
+it is instantiated at an arbitrary linearly ordered field, i.e. the statements are about the test in exact arithmetic
+(IEEE rounding inside the test is not modelled — it moves the interval's end points by ≤ 1 ulp). -/
+
+section Isclose
+variable {K : Type} [Field K] [LinearOrder K] [IsStrictOrderedRing K]
+
+/-- `iscloseG` is `a = b ∨ |a-b| ≤ max(rel·max(|a|,|b|), abs)` (CPython's `math.isclose` for finite arguments). -/
+theorem isclose_iff_abs (a b rel abs : K) :
+    iscloseG a b rel abs = true ↔ (a = b ∨ |a - b| ≤ max (rel * max |a| |b|) abs) := by
+  have hab : ∀ x : K, (if x < 0 then -x else x) = |x| := by
+    intro x
+    split_ifs with h
+    · exact (abs_of_neg h).symm
+    · exact (abs_of_nonneg (not_lt.mp h)).symm
+  have hmx : ∀ x y : K, (if x < y then y else x) = max x y := by
+    intro x y
+    split_ifs with h
+    · exact (max_eq_right h.le).symm
+    · exact (max_eq_left (not_lt.mp h)).symm
+  simp only [iscloseG, hab, hmx, Bool.or_eq_true, beq_iff_eq, decide_eq_true_eq]
+
+/-- Integer pattern literals (`op.Pow(x, 3)`, `op.Add(t, 1)`; zero tolerances since 6800bd1): the test is equality. -/
+theorem isclose_exact_is_equality (a b : K) : iscloseG a b 0 0 = true ↔ a = b := by
+  rw [isclose_iff_abs]
+  constructor
+  · rintro (h | h)
+    · exact h
+    · simp only [zero_mul, max_self] at h
+      exact sub_eq_zero.mp (abs_nonpos_iff.mp h)
+  · intro h; exact Or.inl h
+
+/-- **Exact acceptance interval.**  For a positive reference `b` (the default scale `1/sqrt(Dh)`, or a positive
+pattern literal), `0 ≤ rel < 1` and `abs ≤ rel·b` (with the code's 1e-5 / 1e-8: `b ≥ 1e-3`, i.e. `Dh ≤ 10⁶`), the test
+accepts EXACTLY `b·(1-rel) ≤ a ≤ b/(1-rel)` — for every `a`, non-positive ones included (they are refused). -/
+theorem isclose_acceptance_interval (a b rel abs : K) (hb : 0 < b) (hr0 : 0 ≤ rel) (hr1 : rel < 1)
+    (ha0 : 0 ≤ abs) (ha : abs ≤ rel * b) :
+    iscloseG a b rel abs = true ↔ (b * (1 - rel) ≤ a ∧ a * (1 - rel) ≤ b) := by
+  rw [isclose_iff_abs]
+  have hbabs : |b| = b := abs_of_pos hb
+  rw [hbabs]
+  constructor
+  · rintro (h | h)
+    · subst h; constructor <;> nlinarith
+    · rcases le_total 0 a with h0 | h0
+      · rw [abs_of_nonneg h0] at h
+        rcases le_total a b with hab | hab
+        · rw [max_eq_right hab, max_eq_left ha, abs_of_nonpos (by linarith)] at h
+          constructor <;> nlinarith
+        · rw [max_eq_left hab, abs_of_nonneg (by linarith)] at h
+          have : abs ≤ rel * a := le_trans ha (by nlinarith)
+          rw [max_eq_left this] at h
+          constructor <;> nlinarith
+      · exfalso
+        rw [abs_of_nonpos h0, abs_of_nonpos (by linarith)] at h
+        rcases le_total (-a) b with hab | hab
+        · rw [max_eq_right hab, max_eq_left ha] at h; nlinarith
+        · rw [max_eq_left hab] at h
+          have : abs ≤ rel * -a := le_trans ha (by nlinarith)
+          rw [max_eq_left this] at h; nlinarith
+  · rintro ⟨h1, h2⟩
+    right
+    have h0 : 0 ≤ a := by nlinarith
+    rw [abs_of_nonneg h0]
+    rcases le_total a b with hab | hab
+    · rw [max_eq_right hab, max_eq_left ha, abs_of_nonpos (by linarith)]; nlinarith
+    · rw [max_eq_left hab, abs_of_nonneg (by linarith)]
+      have : abs ≤ rel * a := le_trans ha (by nlinarith)
+      rw [max_eq_left this]; nlinarith
+
+/-- **Soundness bound of dropping the `scale` attribute**: when the SDPA rule decides that the matched scale `a` "is" the
+default `b` and emits no attribute (ORT then scales by `b`), every pre-softmax score `a·x` moves by at most
+`rel/(1-rel) · b · |x|` (relative 1.00001e-5 with the code's constants — below the f32 comparison tolerance). -/
+theorem sdpa_default_scale_error_bound (a b rel abs x : K) (hb : 0 < b) (hr0 : 0 ≤ rel) (hr1 : rel < 1)
+    (ha0 : 0 ≤ abs) (ha : abs ≤ rel * b) (h : iscloseG a b rel abs = true) :
+    |a * x - b * x| ≤ rel / (1 - rel) * b * |x| := by
+  obtain ⟨h1, h2⟩ := (isclose_acceptance_interval a b rel abs hb hr0 hr1 ha0 ha).mp h
+  have h1r : 0 < 1 - rel := by linarith
+  have hx : a * x - b * x = (a - b) * x := by ring
+  rw [hx, abs_mul]
+  apply mul_le_mul_of_nonneg_right _ (abs_nonneg x)
+  have key : rel / (1 - rel) * b = rel * b / (1 - rel) := by ring
+  rw [key, le_div_iff₀ h1r]
+  rcases le_total a b with hab | hab
+  · rw [abs_of_nonpos (by linarith)]; nlinarith
+  · rw [abs_of_nonneg (by linarith)]; nlinarith
+
+end Isclose
+
+/-- non-vacuity (head size 16, default scale 1/4): a scale constant 1e-6 away is accepted, 1e-5 away is not -/
+example : iscloseG (1/4 + 1/1000000 : ℚ) (1/4) (1/100000) (1/100000000) = true :=
+  (isclose_acceptance_interval _ _ _ _ (by norm_num) (by norm_num) (by norm_num) (by norm_num) (by norm_num)).mpr
+    (by norm_num)
+example : iscloseG (1/4 + 1/100000 : ℚ) (1/4) (1/100000) (1/100000000) = false := by
+  rw [Bool.eq_false_iff, Ne, isclose_acceptance_interval _ _ _ _ (by norm_num) (by norm_num) (by norm_num) (by norm_num) (by norm_num)]
+  norm_num
 end OV.Props.C19
